@@ -12,6 +12,19 @@ add("C04", "model_checking",
     "Every operation sequence over {Write(10 chunk sizes), Sum(nil), Sum(prefix), Sum(prefix with capacity), Reset} up to the depth bound is executed on a real sm3.New() and compared step by step with a byte-slice model hashed by an independent GM/T 0004 implementation; every 2-split/3-split and one-shot length in the stated ranges; HMAC/PBKDF2 consumers. Within the bound this is a coverage statement, not a sample.",
     "refsm3 (independent transcription of GM/T 0004, anchored on the standard's vectors); message bytes are a fixed function of position", "DESIGN.md §3 C04")
 
+add("C05", "model_checking",
+    "bounded exhaustive exploration of Encrypt/Decrypt call histories on long-lived cipher objects (all sequences to depth 6/8 over 10 operations) against a stateless independent SM4, plus exhaustive per-table-index enumeration",
+    "Every sequence of Encrypt/Decrypt calls (two objects, disjoint/in-place/long dst) up to the depth bound runs on real sm4 cipher objects and each result is compared with an independent, stateless SM4 whose S-box is derived algebraically; every byte value in every block and key position (drives every T-table entry), every single-bit block/key, key lengths 0..64.",
+    "refsm4 (algebraic S-box, anchored on both GM/T 0002 vectors incl. the 1,000,000-iteration one)", "DESIGN.md §3 C05")
+add("C11", "exploration",
+    "exhaustive product enumeration (keys x IVs x every length x padding-lookalike tails x modes x spare capacities) against crypto/cipher modes over an independent SM4, with canary-guarded caller memory",
+    "Complete product of a structured finite alphabet: every plaintext length 0..130 and 1008..1024 (thorough: 0..1024), every padding length, tails that look like padding, 3 IV settings, 4 modes, with the standard ciphertext decrypted by the helper and all caller memory (input, spare capacity, key, IV) compared afterwards.",
+    "refsm4; Go crypto/cipher CBC/CFB/OFB as the standard definitions", "DESIGN.md §3 C11")
+add("C12", "exploration",
+    "exhaustive product enumeration ((|A|,|P|) grid, IV lengths 1..64 x patterns, every single-bit change, constructed counter-wrap IVs) against crypto/cipher GCM over an independent SM4",
+    "Complete (|A|,|P|) grid for the 12-byte IV, every IV length 1..64 with five IV patterns and size classes, 0xff in every IV position, every single-bit change of IV/AAD/ciphertext/key for 60 shapes per key, IVs constructed by deterministic search so that the 32-bit counter wraps; ciphertext, tag, decryption and recomputed tag compared with NIST GCM over the reference SM4.",
+    "Go crypto/cipher GCM (any nonce size) as SP 800-38D; refsm4", "DESIGN.md §3 C12")
+
 NA_REASON = "check not built yet in this session (work in progress; DESIGN.md §3 describes the planned bounded exhaustive check)"
 
 def main():
